@@ -255,13 +255,13 @@ def ChordInv {K : Type} [Num K] (n : V3 K) (bias eps : K) (V0 : Array (V3 K)) (s
 private theorem chord_step {K : Type} [Num K] (n : V3 K) (bias eps : K) (V0 : Array (V3 K)) (s s' : Section.State K) (t : Tri)
     (done : List Tri) (hI : SInv n bias eps V0 s) (hI' : SInv n bias eps V0 s') (hQ : ChordInv n bias eps V0 s done)
     (hR : StepRel n bias eps V0 s s' t) : ChordInv n bias eps V0 s' (done ++ [t]) := by
-  obtain ⟨kp, sz, alt⟩ := hR
+  obtain ⟨kp, sz, mono, alt⟩ := hR
   have old : ∀ i j, AEdge s.adj i j → s'.verts.getD i V3.zero = s.verts.getD i V3.zero ∧ s'.verts.getD j V3.zero = s.verts.getD j V3.zero := by
     intro i j h
     have hi := aedge_lt _ i j h
     rw [hI.size] at hi
     exact ⟨kp i hi, kp j (hI.entries i j h)⟩
-  rcases alt with ⟨hadj, hnc⟩ | ⟨o1, o2, E, p1, p2, hx⟩
+  rcases alt with ⟨hadj, hnc⟩ | ⟨o1, o2, E, p1, p2, hx, _⟩
   · constructor
     · intro i j h
       rw [hadj] at h
@@ -292,6 +292,30 @@ private theorem chord_step {K : Type} [Num K] (n : V3 K) (bias eps : K) (V0 : Ar
         rcases hx k hk hcr with h | h
         · exact ⟨o1, o2, (E _ _).mpr (Or.inr (Or.inl ⟨rfl, rfl⟩)), h, p1, p2⟩
         · exact ⟨o2, o1, (E _ _).mpr (Or.inr (Or.inr ⟨rfl, rfl⟩)), h, p2, p1⟩
+
+/-- loop invariant of step 2 at the level of indices: a processed triangle with two different crossed edges has linked the polyline
+vertices stored for the keys of these two edges -/
+def KeyInv {K : Type} [Num K] (n : V3 K) (bias eps : K) (V0 : Array (V3 K)) (st : Section.State K) (done : List Tri) : Prop :=
+  ∀ t ∈ done, ∀ k k', k < 3 → k' < 3 → k ≠ k' → CrossedEdge n bias eps V0 t k → CrossedEdge n bias eps V0 t k' →
+    ∃ i j, st.found.lookup (edgeKey t k) = some i ∧ st.found.lookup (edgeKey t k') = some j ∧ AEdge st.adj i j
+
+private theorem key_step {K : Type} [Num K] (n : V3 K) (bias eps : K) (V0 : Array (V3 K)) (s s' : Section.State K) (t : Tri)
+    (done : List Tri) (hQ : KeyInv n bias eps V0 s done) (hR : StepRel n bias eps V0 s s' t) :
+    KeyInv n bias eps V0 s' (done ++ [t]) := by
+  obtain ⟨kp, sz, mono, alt⟩ := hR
+  intro t0 ht0 k k' hk hk' hne hc hc'
+  rcases List.mem_append.mp ht0 with h0 | h0
+  · obtain ⟨i, j, l1, l2, e⟩ := hQ t0 h0 k k' hk hk' hne hc hc'
+    refine ⟨i, j, mono _ _ l1, mono _ _ l2, ?_⟩
+    rcases alt with ⟨hadj, _⟩ | ⟨o1, o2, E, _⟩
+    · rw [hadj]; exact e
+    · exact (E i j).mpr (Or.inl e)
+  · simp only [List.mem_singleton] at h0; subst h0
+    rcases alt with ⟨_, hnc⟩ | ⟨o1, o2, E, _, _, _, hL⟩
+    · exact absurd hc (hnc k hk)
+    · rcases hL k k' hk hk' hne hc hc' with ⟨l1, l2⟩ | ⟨l1, l2⟩
+      · exact ⟨o1, o2, l1, l2, (E _ _).mpr (Or.inr (Or.inl ⟨rfl, rfl⟩))⟩
+      · exact ⟨o2, o1, l1, l2, (E _ _).mpr (Or.inr (Or.inr ⟨rfl, rfl⟩))⟩
 
 /-- **C17 (plane section, the polyline is exactly the union of the triangles' chords)**: when `intersection_with_local_plane`
 returns `Intersect(polyline)` (vertices `vs`, segments `segs`), for every mesh with valid indices, every plane and `eps ≥ 0`:
@@ -342,6 +366,53 @@ theorem section_polyline_spec (verts : List (V3 K)) (tris : List Tri) (n : V3 K)
         rcases (cov i j).mp e' with hs | hs
         · exact ⟨(i, j), hs, by rw [gd]; exact a, by rw [gd]; exact b, Or.inl (by rw [gd]; exact x)⟩
         · exact ⟨(j, i), hs, by rw [gd]; exact b, by rw [gd]; exact a, Or.inr (by rw [gd]; exact x)⟩
+  · simp [hv] at h
+
+/-- **C17 (plane section, no dead end at an edge shared by two triangles — closedness)**: let the mesh edge `e` be crossed by the
+plane and belong to two triangles `t1` (as its edge `k1`) and `t2` (as its edge `k2`), i.e. an *interior* edge, as every edge of a
+closed mesh is. If each of the two triangles has a second crossed edge (`k1'`, `k2'`: automatic when none of their vertices is
+within `eps` of the plane) and these second edges are different mesh edges (the triangles are not two copies of one another), then
+the polyline vertex `i` of `e` — one vertex, shared through `intersections_found`, located at the crossing point of `e` — is an end
+point of two *different* segments `i–j1`, `i–j2` of the polyline: the section does not stop at `e`. For a closed manifold mesh in
+general position every polyline vertex is of this kind, so the polyline is a union of closed loops. -/
+theorem section_no_dead_end (verts : List (V3 K)) (tris : List Tri) (n : V3 K) (bias eps : K) (he : 0 ≤ eps)
+    (vs : List (V3 K)) (segs : List (Nat × Nat))
+    (h : letI := fieldNum K sq; Section.localSection verts tris n bias eps = some (.intersect vs segs))
+    (t1 t2 : Tri) (ht1 : t1 ∈ tris) (ht2 : t2 ∈ tris) (k1 k1' k2 k2' : Nat) (hk1 : k1 < 3) (hk1' : k1' < 3) (hk2 : k2 < 3) (hk2' : k2' < 3)
+    (hne1 : k1 ≠ k1') (hne2 : k2 ≠ k2')
+    (hc1 : letI := fieldNum K sq; CrossedEdge n bias eps verts.toArray t1 k1)
+    (hc1' : letI := fieldNum K sq; CrossedEdge n bias eps verts.toArray t1 k1')
+    (hc2 : letI := fieldNum K sq; CrossedEdge n bias eps verts.toArray t2 k2)
+    (hc2' : letI := fieldNum K sq; CrossedEdge n bias eps verts.toArray t2 k2')
+    (hshare : edgeKey t1 k1 = edgeKey t2 k2) (hdiff : edgeKey t1 k1' ≠ edgeKey t2 k2') :
+    letI := fieldNum K sq
+    ∃ i j1 j2, j1 ≠ j2 ∧ ((i, j1) ∈ segs ∨ (j1, i) ∈ segs) ∧ ((i, j2) ∈ segs ∨ (j2, i) ∈ segs) ∧
+      vs.getD i V3.zero = xpt n bias verts.toArray (t1.get k1) (t1.get ((k1 + 1) % 3)) := by
+  letI : Num K := fieldNum K sq
+  simp only [Section.localSection] at h
+  by_cases hv : validMesh verts.length tris = true
+  · simp only [hv, Bool.not_true, Bool.false_eq_true, if_false] at h
+    obtain ⟨st, e, hI, hQ⟩ := stepLoop_ok sq n bias eps he verts.toArray _ tris (colours_ok sq verts tris n bias eps hv)
+      ⟨#[], [], [], #[]⟩ (KeyInv n bias eps verts.toArray) (sinv_init sq n bias eps _)
+      (fun t ht => by simp at ht)
+      (fun s s' t done _ _ c d => key_step n bias eps verts.toArray s s' t done c d)
+    cases hm : meshVerdict verts n bias eps with
+    | negative => rw [hm] at h; simp at h
+    | positive => rw [hm] at h; simp at h
+    | pair _ _ =>
+      rw [hm] at h
+      simp only [e, Option.some.injEq, Section.Result.intersect.injEq] at h
+      obtain ⟨rfl, rfl⟩ := h
+      obtain ⟨cov, _, _⟩ := orient_spec st.adj hI.sym
+      obtain ⟨i, j1, l1, l1', e1⟩ := hQ t1 ht1 k1 k1' hk1 hk1' hne1 hc1 hc1'
+      obtain ⟨i', j2, l2, l2', e2⟩ := hQ t2 ht2 k2 k2' hk2 hk2' hne2 hc2 hc2'
+      have hi : i' = i := by rw [hshare, l2] at l1; exact Option.some.inj l1
+      subst hi
+      refine ⟨i', j1, j2, ?_, (cov _ _).mp e1, (cov _ _).mp e2, ?_⟩
+      · intro hj; subst hj
+        exact hdiff (hI.tables.2.2 _ _ _ l1' l2')
+      · rw [getD_toList]
+        exact tables_pos sq n bias eps he verts.toArray st _ _ _ hI.tables l1
   · simp [hv] at h
 
 /-- **C17 (plane section, world-space and canonical-axis wrappers)**: `TriMesh::intersection_with_plane(position, axis, bias, eps)`
